@@ -105,6 +105,33 @@ def splitExt (ext : Text) : Text × Text :=
   | some idx => (ext.take (pathOffset + idx), ext.drop (pathOffset + idx + 1))
   | none => ([], ext)
 
+/-- `ishex`/`unhex` of net/url -/
+def hexVal (c : Char) : Option Nat :=
+  if '0' ≤ c ∧ c ≤ '9' then some (c.toNat - 48)
+  else if 'a' ≤ c ∧ c ≤ 'f' then some (c.toNat - 87)
+  else if 'A' ≤ c ∧ c ≤ 'F' then some (c.toNat - 55)
+  else none
+
+/-- `url.PathUnescape`: every `%xy` (two hex digits) becomes the byte `0xxy`; a `%` not followed by two hex digits
+    is an error (`none`). Model restriction: bytes ≥ 0x80 are represented by the character with that code (the
+    generator of the check emits ASCII escapes only). -/
+def pathUnescape : Text → Option Text
+  | [] => some []
+  | [c] => if c = '%' then none else some [c]
+  | [c, a] => if c = '%' then none else (pathUnescape [a]).map (c :: ·)
+  | c :: a :: b :: rest =>
+    if c = '%' then
+      match hexVal a, hexVal b with
+      | some x, some y => (pathUnescape rest).map (Char.ofNat (16 * x + y) :: ·)
+      | _, _ => none
+    else (pathUnescape (a :: b :: rest)).map (c :: ·)
+
+/-- linkname.go:60-73 (after the repair "accept the gc spelling of escaped import paths"): split, then unescape the
+    package part; a malformed escape leaves it unchanged. -/
+def splitTarget (ext : Text) : Text × Text :=
+  let r := splitExt ext
+  ((pathUnescape r.1).getD r.1, r.2)
+
 def directivePrefix : Text := "//go:linkname ".toList
 
 /-- linkname.go:27-75 -/
@@ -117,7 +144,7 @@ def readLinkname (pkgPath : Text) (comment : Text) : Read :=
       if localName == extName then .ignored
       else
         .link { reference := ⟨pkgPath, localName⟩,
-                implementation := ⟨(splitExt extName).1, (splitExt extName).2⟩ }
+                implementation := ⟨(splitTarget extName).1, (splitTarget extName).2⟩ }
     | _ => .usage
 
 /-! ### `ParseGoLinknames` — the decision for one comment -/
@@ -191,10 +218,10 @@ def resolve (all : List Link) (decls : List Sym) (ref : Sym) : Option Sym :=
 
 /-- How a call of the bodyless function `ref` gets to an implementation. Inside the declaring package the call goes
     through the package-level JavaScript variable, which `$initLinknames` assigns. From another package the call goes
-    through `$pkg.<Name>`; functions.go:121-123 (`translateStandaloneFunction`, `fun.Body == nil`) emits no
-    `$pkg.<Name> = …` for a bodyless function and `$initLinknames` assigns the variable only, so that property is
-    never defined. -/
-def callTarget (all : List Link) (decls : List Sym) (ref : Sym) (samePackage : Bool) : Option Sym :=
-  if samePackage then resolve all decls ref else none
+    through `$pkg.<Name>`, which functions.go (`translateStandaloneFunction`, `fun.Body == nil`, after the repair
+    "export bodyless go:linkname functions through $pkg") defines as a forwarder through the same variable. Either
+    way the call reaches what `$initLinknames` bound. -/
+def callTarget (all : List Link) (decls : List Sym) (ref : Sym) (_samePackage : Bool) : Option Sym :=
+  resolve all decls ref
 
 end GV.Linkname
